@@ -200,6 +200,8 @@ func runC05(c *Ctx) {
 
 	ruleBdatAccounting(c, bi)
 	ruleDrainFailureCloses(c) // a chunk that cannot be consumed to its declared size ends the connection
+	ruleResetEffects(c) // no per-message chunk state (total, collector, pipe) survives into the next message
+
 	R.Rule("R-bdat-one-reply", "E2 path counting", "every path through handleBdat emits exactly one final reply (per accepted recipient in LMTP)", 1)
 	ruleReplyCountFor(c, []string{"(*Conn).handleBdat"})
 	R.Rule("R-state-writers", "who-may-write", "the BDAT pipe is created by handleBdat and forgotten only by reset() and Close, which abort it first", 1)
